@@ -25,7 +25,7 @@ RULE = (
     "simulator built from the request multiset; a state is the canonical multiset of requested edges; non-trivial = the "
     "synapses change the voltages by > 1e-6 mV relative to the unconnected network"
 )
-REQUIRED_COVER = ["autapse", "fan_in", "interleaved_types", "post_area_distinct", "same_cell_pair",
+REQUIRED_COVER = ["eight_or_more_edges_interleaved", "autapse", "fan_in", "interleaved_types", "post_area_distinct", "same_cell_pair",
                   "accepted:jaxley.stone", "accepted:jaxley.thomas", "accepted:jax.sparse",
                   "api:type_view", "api:global_edge", "api:select_edges", "zero_g"]
 ASSUMPTIONS = [
@@ -200,6 +200,8 @@ def run_history(netname, seq, forms, want_zero=True, nsteps=NSTEPS):
         ref0 = refsim.simulate(_ref_model(netname, []), DT, nsteps)["v"]
         moved = float(np.max(np.abs(ref - ref0)))
         for backend in BACKENDS:
+            if len(seq) >= 8 and nsteps == 1 and backend == "jaxley.thomas":
+                continue  # quick tier, many-edge family: thomas shares the synapse code path with stone
             out["evals"] += 1
             try:
                 vs, _ = build.eager_step(net, "bwd_euler", backend, DT, nsteps=nsteps)
@@ -230,6 +232,8 @@ def run_history(netname, seq, forms, want_zero=True, nsteps=NSTEPS):
         out["cover"].append("post_area_distinct")
     if any((p, q) == ("D", "A") for p, q, _ in seq):
         out["cover"].append("same_cell_pair")
+    if len(seq) >= 8 and feats["interleaved"]:
+        out["cover"].append("eight_or_more_edges_interleaved")
     if seq:
         for gi in range(len(seq)):
             out["cover"].append("api:" + forms[gi % len(forms)])
@@ -270,23 +274,50 @@ def _histories(tier):
     return hs
 
 
+LONG_PAIRS = [("A", "B"), ("C", "B"), ("B", "A"), ("A", "A"), ("D", "A"), ("B", "C"), ("C", "D"), ("D", "C"),
+              ("A", "C"), ("C", "A"), ("D", "B"), ("B", "D")]
+
+
+def _long_histories(tier):
+    """Many-edge networks: ALL interleavings of synapse types over a fixed list of (pre, post) pairs (sorting/grouping of
+    edges by type only shows its order-dependence with more than a handful of edges)."""
+    hs = []
+    if tier == "quick":
+        fams = [(8, (0, 1))]
+    else:
+        fams = [(8, (0, 1, 2)), (12, (0, 1))]
+    for L, types in fams:
+        for ts in itertools.product(types, repeat=L):
+            if len(set(ts)) < 2:
+                continue
+            hs.append({"seq": [(p, q, t) for (p, q), t in zip(LONG_PAIRS[:L], ts)], "forms": API_FORMS, "zero": False, "long": True})
+    return hs
+
+
 def explore(ctx):
-    hs = _histories(ctx.tier)
+    hs = _histories(ctx.tier) + _long_histories(ctx.tier)
     nets = ["hetero", "level_homog"]
     ctx.note("alphabet_edges", len(ALPHABET))
     ctx.note("histories_per_net", len(hs))
     ctx.note("depth", 3)
+    ctx.note("long_histories", "quick: all 254 two-type interleavings of 8 edges; thorough: all three-type interleavings of 8 edges and two-type of 12")
     ctx.note("bound", "quick: all histories of length <=2 (342) + all type-interleavings of two length-3 pair patterns; "
                       "thorough: all 6174 histories of length <=3; x 2 base networks x accepting backends")
     items = []
     chunk = 6 if ctx.tier == "quick" else 24
     for net in nets:
-        for i in range(0, len(hs), chunk):
-            items.append({"net": net, "histories": hs[i:i + chunk], "nsteps": 1 if ctx.tier == "quick" else 2})
+        hs_net = [h for h in hs if not h.get("long") or net == "level_homog"]
+        if ctx.tier == "quick" and net == "hetero":
+            # heterogeneous network (only jax.sparse accepts it): pairs of equal type are covered on the other network
+            hs_net = [h for h in hs_net if len(h["seq"]) != 2 or h["seq"][0][2] != h["seq"][1][2]]
+        for i in range(0, len(hs_net), chunk):
+            items.append({"net": net, "histories": hs_net[i:i + chunk], "nsteps": 1 if ctx.tier == "quick" else 2})
     ctx.map("work", items)
     states = set()
     for net in nets:
         for h in hs:
+            if h.get("long") and net != "level_homog":
+                continue
             states.add(net + ":" + digest(sorted(tuple(e) for e in h["seq"])))
     ctx.states = len(states)
 
